@@ -9,6 +9,7 @@ CONSTANTS
  OpMans = {"m1", "m2"}
  OpKinds <- MutOnly
  UseMutex = FALSE
+ FreshPH = TRUE
 SPECIFICATION Spec
 INVARIANTS NoViol Glue Quiescent LayoutGlue WellFormed CacheCoherent GetStable HeadStable
 CHECK_DEADLOCK FALSE
